@@ -95,6 +95,12 @@ class BuiltinFunction(abstract.PyTDFunction):
     else:
       return node, None
 
+  def simplify_args(self, node, args):
+    """Moves what is known of *args / **kwargs into posargs / namedargs."""
+    if len(self.signatures) == 1:
+      return args.simplify(node, self.ctx, self.signatures[0].signature)
+    return args.simplify(node, self.ctx)
+
 
 def get_file_mode(sig, args):
   callargs = {name: var for name, var, _ in sig.signature.iter_args(args)}
@@ -110,7 +116,11 @@ class Abs(BuiltinFunction):
   _NAME = "abs"
 
   def call(self, node, func, args, alias_map=None):
+    args = self.simplify_args(node, args)
     self.match_args(node, args)
+    if not args.posargs:
+      # abs(*xs), abs(**kw): the operand is not known.
+      return super().call(node, func, args, alias_map)
     arg = args.posargs[0]
     node, fn = self.get_underlying_method(node, arg, "__abs__")
     if fn is not None:
@@ -135,7 +145,11 @@ class Next(BuiltinFunction):
     return arg, default
 
   def call(self, node, func, args, alias_map=None):
+    args = self.simplify_args(node, args)
     self.match_args(node, args)
+    if not args.posargs:
+      # next(*xs): the iterator is not known.
+      return super().call(node, func, args, alias_map)
     arg, default = self._get_args(args)
     node, fn = self.get_underlying_method(node, arg, "__next__")
     if fn is not None:
@@ -152,7 +166,11 @@ class Round(BuiltinFunction):
   _NAME = "round"
 
   def call(self, node, func, args, alias_map=None):
+    args = self.simplify_args(node, args)
     self.match_args(node, args)
+    if not args.posargs:
+      # round(*xs): the operand is not known.
+      return super().call(node, func, args, alias_map)
     node, fn = self.get_underlying_method(node, args.posargs[0], "__round__")
     if fn is None:
       return super().call(node, func, args, alias_map)
@@ -167,12 +185,19 @@ class ObjectPredicate(BuiltinFunction):
   (See UnaryPredicate and BinaryPredicate for examples.)
   """
 
+  # Number of positional operands run() reads.
+  _NUM_OPERANDS = 1
+
   def run(self, node, args, result):
     raise NotImplementedError(self.__class__.__name__)
 
   def call(self, node, func, args, alias_map=None):
     try:
+      args = self.simplify_args(node, args)
       self.match_args(node, args)
+      if len(args.posargs) < self._NUM_OPERANDS:
+        # f(*xs), f(x, *xs): the operands are not all known.
+        return super().call(node, func, args, alias_map)
       node = self.ctx.connect_new_cfg_node(node, f"CallPredicate:{self.name}")
       result = self.ctx.program.NewVariable()
       self.run(node, args, result)
@@ -208,6 +233,8 @@ class BinaryPredicate(ObjectPredicate):
 
   _call_predicate(self, node, left, right): The implementation of the predicate.
   """
+
+  _NUM_OPERANDS = 2
 
   def _call_predicate(self, node, left, right):
     raise NotImplementedError(self.__class__.__name__)
